@@ -236,7 +236,7 @@ package mqtt
 // present are exactly those of the window that starts at Acked and has one entry per queued exchange. Every
 // operation that holds it at entry holds it at exit, and the store changes by one record at a time - appended at
 // the end of the window or removed from its start - so it is contiguous wherever a stop falls between two of them.
-//@ pred storewin(c, q, first, space): len(q) <= 16384 && forall(j, 0, 16384, st_has(c.persistence, space + j) == (ite(j >= first % 16384, j - first % 16384, j - first % 16384 + 16384) < len(q)))
+//@ pred storewin(c, q, first, space): cap(q) <= 16384 && len(q) <= cap(q) && forall(j, 0, 16384, st_has(c.persistence, space + j) == (ite(j >= first % 16384, j - first % 16384, j - first % 16384 + 16384) < len(q)))
 // (with the sequence token at rest in its channel: the next identifier is the one after the window)
 //@ pred alowin(c): c.atLeastOnce.queue != c.exactlyOnce.queue && c.atLeastOnce.seqSem != c.exactlyOnce.seqSem && storewin(c, c.atLeastOnce.queue, c.Acked, 32768) && len(c.atLeastOnce.seqSem) == 1 && qat(c.atLeastOnce.seqSem, 0).acceptN % 16384 == (c.Acked + len(c.atLeastOnce.queue)) % 16384
 //@ pred eowin(c): c.atLeastOnce.queue != c.exactlyOnce.queue && c.atLeastOnce.seqSem != c.exactlyOnce.seqSem && storewin(c, c.exactlyOnce.queue, c.Completed, 49152) && len(c.exactlyOnce.seqSem) == 1 && qat(c.exactlyOnce.seqSem, 0).acceptN % 16384 == (c.Completed + len(c.exactlyOnce.queue)) % 16384
